@@ -310,6 +310,52 @@ class Callbacks:
         return V
 
 
+class Reversal:
+    """steps in one direction, then integrate() in the other one: the pending sub-steps of the deferred modes belong to the old
+    direction; safe_mode=0 must give the result of safe mode"""
+    def __init__(self, rebound):
+        self.rebound = rebound
+
+    def run1(self, integ, o, k, exact, again, dtsign, dtfac=1.0):
+        sim, P = lattice.make_sim(self.rebound, {"integ": integ, "o": o, "sys": "S3", "tp": 0, "dtsign": dtsign, "dtfac": dtfac})
+        dt0 = sim.dt / dtfac
+        sim.steps(int(round(k / dtfac)))
+        sim.integrate(sim.t - 2.5 * dt0, exact_finish_time=exact)
+        if again:
+            sim.integrate(sim.t + 3.5 * dt0, exact_finish_time=exact)
+        sim.synchronize()
+        return pvec(sim), sim.t
+
+    def __call__(self, task):
+        integ, o, k, exact, again, dtsign = task
+        rb.quiet()
+        o_safe = dict(o, safe_mode=1)
+        a, ta = self.run1(integ, o_safe, k, exact, again, dtsign)
+        b, tb = self.run1(integ, dict(o, safe_mode=0), k, exact, again, dtsign)
+        sc = max(abs(x) for p in a for x in p)
+        d = maxdiff(a, b)
+        bound = 1e-11 * sc * (k + 8)
+        extra = ""
+        if integ == "eos":
+            h, th = self.run1(integ, o_safe, k, exact, again, dtsign, 0.5)
+            trunc = maxdiff(a, h) if th == ta else float("inf")
+            if exact == 0 and th != ta:
+                trunc = None
+            if trunc is not None:
+                bound += 20 * trunc
+                extra = "; the scheme's own truncation error over this history is %.3g" % trunc
+            else:
+                return []
+        V = []
+        what = "%d step(s), then integrate() %s by 2.5 steps%s, exact_finish_time=%d, %s initial dt" % (
+            k, "back", " and forth again by 3.5 steps" if again else "", exact, "positive" if dtsign > 0 else "negative")
+        if ta != tb:
+            V.append(("reversal:time-differs:%s" % integ, "%s%s: %s: safe mode ends at t=%r, safe_mode=0 at t=%r" % (integ, o, what, ta, tb)))
+        if not d <= bound:
+            V.append(("reversal:unsafe-vs-safe:%s" % integ, "%s%s: %s: safe_mode=0 differs from safe mode by %.3g (relative %.3g)%s" % (integ, o, what, d, d / sc, extra)))
+        return V
+
+
 def run(ctx):
     rebound = ctx.use("rel")
     cfgs = configs(ctx.tier, False)
@@ -353,6 +399,17 @@ def run(ctx):
             continue
         for sig, what in r[1]:
             ctx.violation(sig, what, {"callback": [t[0], t[1], t[2], t[3]]})
+    # change of direction while sub-steps are pending
+    CB_INTEGS = [("whfast", {"coordinates": c}) for c in ("jacobi", "democraticheliocentric", "whds", "barycentric")] + [("whfast", {"corrector": 11}), ("whfast", {"kernel": "lazy", "corrector": 17}),
+                 ("saba", {"type": "10,6,4"}), ("saba", {"type": "cl4"}), ("saba", {"type": "2"}), ("mercurius", {}), ("eos", {"phi0": "lf4", "phi1": "lf", "n": 2}), ("eos", {"phi0": "pmlf4", "phi1": "lf4", "n": 2})]
+    rvt = [(integ, o, k, exact, again, dtsign) for integ, o in CB_INTEGS for k in (1, 2, 3) for exact in (0, 1) for again in (False, True) for dtsign in (1, -1)]
+    rres = pool.run_tasks(Reversal(rebound), rvt, timeout=300, chunk=4)
+    for t, r in zip(rvt, rres):
+        if r[0] != "ok":
+            ctx.violation("reversal-%s:%s" % (r[0], t[0]), "%s in reversal case %s: %s" % (r[0], t, str(r[1])[-400:]), {"reversal": list(t)})
+            continue
+        for sig, what in r[1]:
+            ctx.violation(sig, what, {"reversal": list(t)})
     # WHFast512 exists only in the AVX512 build: its part runs in a process of its own (mc/w512.py)
     from .. import w512
     n_w512 = w512.run(ctx, "C09")
@@ -360,7 +417,7 @@ def run(ctx):
         "whfast512_cases": n_w512,
         "states": runs, "transitions": runs * 3, "traces_validated_against_impl": runs,
         "samples": [{"cfg": cfgs[0], "sequences": seqs[:12]}, {"cfg": cfgs[-1], "sequences": seqs[-5:]}],
-        "callback_cases": len(cbt), "configs": len(cfgs), "sequences_per_config_and_mode": len(seqs), "max_steps": 4, "max_interposed": 2 if ctx.tier == "quick" else 3,
+        "callback_cases": len(cbt), "reversal_cases": len(rvt), "configs": len(cfgs), "sequences_per_config_and_mode": len(seqs), "max_steps": 4, "max_interposed": 2 if ctx.tier == "quick" else 3,
         "observed_max_relative_rounding_difference": maxr, "rounding_tolerance": ROUND_TOL,
         "observed_max_relative_difference_with_corrector2": maxr2, "corrector2_tolerance": CORR2_TOL,
         "exhaustive": True,
@@ -376,7 +433,12 @@ def run(ctx):
 
 def replay(ctx, case):
     rebound = ctx.use("rel")
-    V, obs = Runner(rebound)((case["cfg"], case["seqs"]))
+    if "callback" in case:
+        V = Callbacks(rebound)(tuple(case["callback"]))
+    elif "reversal" in case:
+        V = Reversal(rebound)(tuple(case["reversal"]))
+    else:
+        V, obs = Runner(rebound)((case["cfg"], case["seqs"]))
     for v in V[:20]:
         print(v)
     return 1 if V else 0
